@@ -9,6 +9,33 @@ import traceback
 from . import core
 
 
+def _confirm(mod, pid):
+    """Replay discipline: every violation about to be reported is re-executed twice from its replay file in a
+    fresh world; if it does not reproduce both times the harness (not flumine) is at fault."""
+    import contextlib
+    import glob
+    import io
+
+    files = sorted(glob.glob(os.path.join(core.REPLAY_DIR, pid, "*.json")))[:6]
+    for f in files:
+        with open(f) as fh:
+            rep = json.load(fh)
+        if rep.get("flumine_git_head") is None:
+            continue
+        for attempt in (1, 2):
+            buf = io.StringIO()
+            try:
+                with contextlib.redirect_stdout(buf):
+                    r = mod.replay(rep)
+            except Exception as e:  # a replay that crashes is a harness problem as well
+                print("HARNESS-NONDETERMINISM property=%s replay %s raised %r" % (pid, f, e))
+                return core.EXIT_HARNESS
+            if r == 0 and "re-run ./check" not in buf.getvalue() and "nothing to replay" not in buf.getvalue():
+                print("HARNESS-NONDETERMINISM property=%s violation in %s did not reproduce on re-execution %d" % (pid, f, attempt))
+                return core.EXIT_HARNESS
+    return core.EXIT_VIOLATION
+
+
 def main(argv=None):
     ap = argparse.ArgumentParser(prog="check")
     ap.add_argument("prop")
@@ -33,6 +60,8 @@ def main(argv=None):
                 rep = json.load(f)
             return mod.replay(rep)
         rc = mod.run(tier)
+        if rc == core.EXIT_VIOLATION:
+            rc = _confirm(mod, pid)
     except core.HarnessError as e:
         print("HARNESS-ERROR property=%s %s" % (pid, e))
         traceback.print_exc()
